@@ -91,6 +91,9 @@ class Prop:
     MIN_CORR_FRACTION = 0.25    # at least this share of the cases must reach the Coq model, else the run decides nothing
     DRIFT_FACTOR = 2            # quick tier generates this many times the cases when an anchored file drifted
     SHRINK_BUDGET_S = 150      # wall-clock budget for shrinking per run (0 disables shrinking)
+    CONFIRM = True               # re-run an anomalous case once before reporting it (see run_check 4b)
+    CONFIRM_MAX_FAILURES = 8     # beyond this many distinct unlisted signatures, report without re-running
+    CONFIRM_MAX_MISMATCHES = 40
 
     # -- to be provided by the property module ------------------------------------------------
     def gen(self, rng: random.Random, tier: str):
@@ -512,11 +515,33 @@ def run_check(pid: str, tier: str, seed: int, replay: str | None = None) -> int:
     bad, cerr = coq_correspondence(prop, terms)
     mism = [tidx[b] for b in bad]
 
+    # 4b. confirmation. An anomaly that does not reproduce when the same case is run again is not a
+    # replay (the case carries every random choice, schedule seed included): it is counted and printed
+    # as UNCONFIRMED, never reported. Anomalies that do reproduce are reported with the re-run observation.
+    unconfirmed = []
+    if mism and prop.CONFIRM:
+        redo = mism[:prop.CONFIRM_MAX_MISMATCHES]
+        robs = run_impl(prop, [cases[i] for i in redo])
+        rterms, ridx = [], []
+        for i, o in zip(redo, robs):
+            t = prop.coq_case(cases[i], o) if o is not None else None
+            if t is not None:
+                rterms.append(t)
+                ridx.append(i)
+        rbad, rerr = coq_correspondence(prop, rterms)
+        if rerr is None:
+            still = {ridx[b] for b in rbad}
+            gone = [i for i in redo if i in ridx and i not in still]
+            for i in gone:
+                unconfirmed.append({"what": "correspondence-mismatch", "case": cases[i], "first_observation": obs[i]})
+            mism = [i for i in mism if i not in gone]
+
     # 5. verdict
     violations = 0
     nrep = 0
     known_hit = {}
     reported_sigs = set()
+    nconfirm = 0
     for i, clause, msg in failures:
         sig = prop.signature(cases[i], obs[i], clause)
         k = next((kk for kk in known if kk[0] == sig), None)
@@ -525,6 +550,24 @@ def run_check(pid: str, tier: str, seed: int, replay: str | None = None) -> int:
             continue
         if sig in reported_sigs:
             continue
+        if prop.CONFIRM and nconfirm < prop.CONFIRM_MAX_FAILURES:
+            nconfirm += 1
+            o2 = run_impl(prop, [cases[i]])[0]
+            if o2 is None:
+                o2 = {"crash": True, "stderr": "no observation"}
+            v2 = prop.oracle(cases[i], o2)
+            if not v2:
+                unconfirmed.append({"what": "oracle-failure", "signature": sig, "clause": clause, "message": msg[:600],
+                                    "case": cases[i], "first_observation": obs[i]})
+                continue
+            obs[i], clause, msg = o2, v2[0], v2[1]
+            sig = prop.signature(cases[i], o2, clause)
+            k = next((kk for kk in known if kk[0] == sig), None)
+            if k:
+                known_hit.setdefault(sig, k[1])
+                continue
+            if sig in reported_sigs:
+                continue
         reported_sigs.add(sig)
         # shrinking re-runs the implementation many times: do it for the first two signatures only
         small, small_obs = shrink_case(prop, cases[i], clause) if nrep < 2 else (cases[i], obs[i])
@@ -633,6 +676,7 @@ def run_check(pid: str, tier: str, seed: int, replay: str | None = None) -> int:
         "correspondence_cases": len(terms), "correspondence_mismatches": len(mism),
         "outside_model_domain": skipped, "oracle_failures": len(failures),
         "known_findings_hit": sorted(known_hit), "extended_search_cases": ext_eval,
+        "unconfirmed_anomalies": len(unconfirmed), "unconfirmed_samples": unconfirmed[:3],
         "input_distribution": dist, "repo": REPO, "anchor_drift": drift,
         "programs": len(cases), "disagreements_checked": len(mism) + len(failures),
     }
@@ -648,6 +692,9 @@ def run_check(pid: str, tier: str, seed: int, replay: str | None = None) -> int:
 
     for ln in lines:
         print(ln)
+    for u in unconfirmed[:10]:
+        print(f"UNCONFIRMED {pid}: {u['what']} {u.get('signature', '')} seen once, gone when the same case was run "
+              f"again (not reported; counted in evidence)")
     if cerr:
         print(f"CORRESPONDENCE-ERROR {pid}: the model could not be evaluated on the cases: {cerr[:600]}")
     if po["failed"]:
